@@ -4,10 +4,10 @@ import SiaProofs.Lemmas.LedgerC06Genuine
 # C10 (validation half) on the ledger model: where `validateBlock` can and cannot panic;
 accepted blocks apply
 
-`c10_validate_no_panic` in full generality is FALSE in the model (and, the model being a mirror, a
-candidate defect of the code): see the two evaluated witnesses `c10_renewal_rollover_panics` and
-`c10_v1_duplicate_input_panics`, both outside the legacy window and over solvent ledgers.  What is
-proved instead:
+Two panics found while attempting `c10_validate_no_panic` (unchecked addition of renewal rollovers
+to the input sum; unchecked input sum of a v1 transaction listing one parent several times) were
+confirmed on the code, fixed there (commit 1c6bcb4) and in the model; their witnesses are kept as
+theorems that the current model *rejects* them.  What is proved:
 
 * every check that does not add ledger values never panics (`c10_*_no_panic`, unconditional);
 * `c10_accepted_applies`: a block accepted by `validateBlock` is applied by `applyBlock` without
@@ -26,25 +26,21 @@ def rn0 : Renewal :=
 def tRollover : Txn2 :=
   { txn2 with scIns := [{ parent := e0, addrOk := true, authOk := true }], ress := [{ parent := c2, renterOutId := 601, hostOutId := 602, res := .renewal rn0 }] }
 
-/-- WITNESS (outside the legacy window: child 15 ≥ ephemeralFix 12): the unchecked addition of a
-renewal's rollover to the input sum in `validateV2Siacoins` panics; the overflow pre-check only
-bounds the output side, and the renewal is examined only later by `validateV2FileContracts`. -/
-theorem c10_renewal_rollover_panics :
+/-- formerly a panic (unchecked `inputSum.Add(rollover)` in `validateV2Siacoins`, reachable with any
+1-hasting input because the overflow pre-check only bounds the output side): now rejected -/
+theorem c10_rollover_overflow_rejected :
     validateV2CurrencyOverflow tRollover = .ok () ∧
-    validateV2Transaction (M 15) tRollover 100 = .error (.panic "overflow") := by decide
+    validateV2Transaction (M 15) tRollover 100 = .error (.reject "siacoin inputs overflow") := by decide
 
 def eBig : ScElem := { id := 100, value := curLimit / 2, addr := 7, maturity := 0, leaf := some 2 }
 def LBig : Ledger := { (default : Ledger) with P := P0, child := 15, sc := [eBig] }
 def tDup : Txn1 :=
   { txn1 with scIns := [{ parent := 100, timelock := 0, ucAddr := 7 }, { parent := 100, timelock := 0, ucAddr := 7 }], supp := { (default : Supp1) with scIns := [eBig] } }
 
-/-- WITNESS: a v1 transaction listing one parent twice panics in `validateSiacoins` (unchecked input
-sum) before `validateSignatures` would reject the duplicate; the ledger holds a single element of
-value 2^127 < 2^128. -/
-theorem c10_v1_duplicate_input_panics :
-    validateTransaction (newMid LBig) tDup 0 100 = .error (.panic "overflow") ∧
-    validateSignatures tDup = .error (.reject "transaction spends or revises a parent more than once") := by
-  decide
+/-- formerly a panic (unchecked input sum of `validateSiacoins`; the duplicate is only detected
+later by `validateSignatures`): now rejected -/
+theorem c10_duplicate_parent_overflow_rejected :
+    validateTransaction (newMid LBig) tDup 0 100 = .error (.reject "siacoin inputs overflow") := by decide
 
 /-- a ledger inside the legacy window (child 15 < ephemeralFix 100) with one siafund element -/
 def PLegacy : Params := { P0 with ephemeralFix := 100 }
@@ -395,5 +391,316 @@ theorem c10_v2_contracts_no_panic_partial (ms : Mid) (t : Txn2) (hov : validateV
     | expiration =>
       simp only []
       split <;> simp
+
+-- ================================================================= v2 siacoins: no panic after the overflow pre-check
+
+def wFc (x : Id × Fc2 × Bool) : Nat := x.2.1.renter.value + x.2.1.host.value + (x.2.1.renter.value + x.2.1.host.value) / 25
+def wResO (r : Resolution2) : Nat :=
+  match r.res with
+  | .renewal rn => rn.newContract.renter.value + rn.newContract.host.value + (rn.newContract.renter.value + rn.newContract.host.value) / 25
+  | _ => 0
+
+theorem segment_le {α} (xs : List α) (g : α → Option (List Cur)) (w : α → Nat)
+    (hw : ∀ x ∈ xs, ∃ l, g x = some l ∧ w x ≤ l.sum) :
+    (xs.map w).sum ≤ ((xs.map g).filterMap id).flatten.sum := by
+  induction xs with
+  | nil => simp
+  | cons a xs ih =>
+    obtain ⟨l, hl, hle⟩ := hw a List.mem_cons_self
+    have := ih (fun x hx => hw x (List.mem_cons_of_mem _ hx))
+    simp only [List.map_cons, List.sum_cons, List.filterMap_cons, hl, id, List.flatten_cons, List.sum_append]
+    omega
+
+theorem v2Contract_some {fc : Fc2} (h : v2Contract fc ≠ none) :
+    fc.renter.value + fc.host.value < curLimit ∧
+      v2Contract fc = some (fc.values ++ [(fc.renter.value + fc.host.value) / 25]) := by
+  unfold v2Contract at h ⊢
+  split
+  · exact ⟨by assumption, rfl⟩
+  · rename_i hc; rw [if_neg hc] at h; exact absurd rfl h
+
+/-- what the overflow pre-check gives for the output side of the siacoin balance -/
+theorem v2_output_bound {t : Txn2} (hov : validateV2CurrencyOverflow t = .ok ()) :
+    (t.scOuts.map (·.2.value)).sum + (t.fcs.map wFc).sum + (t.ress.map wResO).sum + t.fee < curLimit ∧
+    (∀ x ∈ t.fcs, x.2.1.renter.value + x.2.1.host.value < curLimit) ∧
+    (∀ r ∈ t.ress, ∀ rn, r.res = .renewal rn → rn.newContract.renter.value + rn.newContract.host.value < curLimit) := by
+  obtain ⟨hsome, htot⟩ := validateV2CurrencyOverflow_ok hov
+  have hfc : ∀ x ∈ t.fcs, v2Contract x.2.1 ≠ none := fun x hx => hsome _ (by
+    unfold v2Parts; simp only [List.mem_append, List.mem_map]
+    exact Or.inl (Or.inl (Or.inl (Or.inr ⟨x, hx, rfl⟩))))
+  have hrs : ∀ r ∈ t.ress, v2ResPart r ≠ none := fun r hr => hsome _ (by
+    unfold v2Parts; simp only [List.mem_append, List.mem_map]
+    exact Or.inl (Or.inr ⟨r, hr, rfl⟩))
+  have hren : ∀ r ∈ t.ress, ∀ rn, r.res = .renewal rn → v2Contract rn.newContract ≠ none := by
+    intro r hr rn hrn hn
+    apply hrs r hr
+    unfold v2ResPart; rw [hrn]; simp only [hn, Option.map_none]
+  refine ⟨?_, fun x hx => (v2Contract_some (hfc x hx)).1, fun r hr rn hrn => (v2Contract_some (hren r hr rn hrn)).1⟩
+  have s1 := segment_le t.fcs (fun x => v2Contract x.2.1) wFc (fun x hx => by
+    obtain ⟨_, he⟩ := v2Contract_some (hfc x hx)
+    refine ⟨_, he, ?_⟩
+    simp only [wFc, Fc2.values, List.sum_append, List.sum_cons, List.sum_nil]; cur_omega)
+  have s2 := segment_le t.ress v2ResPart wResO (fun r hr => by
+    cases hres : r.res with
+    | renewal rn =>
+      obtain ⟨_, he⟩ := v2Contract_some (hren r hr rn hres)
+      refine ⟨rn.newContract.values ++ [(rn.newContract.renter.value + rn.newContract.host.value) / 25] ++
+        [rn.finalRenter.value, rn.finalHost.value, rn.renterRollover, rn.hostRollover], ?_, ?_⟩
+      · unfold v2ResPart; rw [hres]; simp only [he, Option.map_some]
+      · simp only [wResO, hres, Fc2.values, List.sum_append, List.sum_cons, List.sum_nil]; cur_omega
+    | proof a b c d => exact ⟨[], by unfold v2ResPart; rw [hres], by simp [wResO, hres]⟩
+    | expiration => exact ⟨[], by unfold v2ResPart; rw [hres], by simp [wResO, hres]⟩)
+  unfold v2Parts at htot
+  simp only [List.filterMap_append, List.flatten_append, List.sum_append, List.filterMap_cons, id,
+    List.filterMap_nil, List.flatten_cons, List.flatten_nil, List.sum_cons, List.sum_nil, List.append_nil] at htot
+  have e1 : (t.fcs.map fun x => match x with | (_, fc, _) => v2Contract fc) = t.fcs.map (fun x => v2Contract x.2.1) := by
+    apply List.map_congr_left; intro x _; rfl
+  rw [e1] at htot
+  cur_omega
+
+theorem v2Tax_eq_ok {fc : Fc2} (h : fc.renter.value + fc.host.value < curLimit) :
+    v2Tax fc = .ok ((fc.renter.value + fc.host.value) / 25) := by
+  unfold v2Tax; rw [addC_eq_ok h]; rfl
+
+/-- the contract-formation loop of the balance: never panics, and adds exactly `wFc` per contract -/
+theorem fcs_fold_spec (l : List (Id × Fc2 × Bool)) (s : Cur)
+    (hb : ∀ x ∈ l, x.2.1.renter.value + x.2.1.host.value < curLimit) (h : s + (l.map wFc).sum < curLimit) :
+    l.foldlM (fun (s : Cur) (x : Id × Fc2 × Bool) => do
+        let a ← addC s x.2.1.renter.value
+        let b ← addC a x.2.1.host.value
+        let tax ← v2Tax x.2.1
+        addC b tax) s = .ok (s + (l.map wFc).sum) := by
+  induction l generalizing s with
+  | nil => simp [pure, Except.pure]
+  | cons x l ih =>
+    simp only [List.map_cons, List.sum_cons, wFc] at h
+    have hb0 := hb _ List.mem_cons_self
+    rw [List.foldlM_cons]
+    rw [addC_eq_ok (by cur_omega : s + x.2.1.renter.value < curLimit)]
+    simp only [ok_bind]
+    rw [addC_eq_ok (by cur_omega : s + x.2.1.renter.value + x.2.1.host.value < curLimit)]
+    simp only [ok_bind]
+    rw [v2Tax_eq_ok hb0]
+    simp only [ok_bind]
+    rw [addC_eq_ok (by cur_omega : s + x.2.1.renter.value + x.2.1.host.value + (x.2.1.renter.value + x.2.1.host.value) / 25 < curLimit)]
+    simp only [ok_bind]
+    rw [ih _ (fun x hx => hb x (List.mem_cons_of_mem _ hx)) (by cur_omega)]
+    simp only [List.map_cons, List.sum_cons, wFc]
+    congr 1; cur_omega
+
+/-- the resolution loop of the balance: the input side is checked (rejects), the output side is
+bounded; never panics, and the output component grows by exactly `wResO` per resolution -/
+theorem ress_fold_spec (l : List Resolution2) (x : Cur × Cur)
+    (hb : ∀ r ∈ l, ∀ rn, r.res = .renewal rn → rn.newContract.renter.value + rn.newContract.host.value < curLimit)
+    (ho : x.2 + (l.map wResO).sum < curLimit) :
+    NoPanic (l.foldlM (fun (x : Cur × Cur) (r : Resolution2) => match r.res with
+      | .renewal rn => do
+        let i1 ← if x.1 + rn.renterRollover < curLimit then pure (x.1 + rn.renterRollover) else reject "siacoin inputs overflow"
+        let i2 ← if i1 + rn.hostRollover < curLimit then pure (i1 + rn.hostRollover) else reject "siacoin inputs overflow"
+        let a ← addC x.2 rn.newContract.renter.value
+        let b ← addC a rn.newContract.host.value
+        let tax ← v2Tax rn.newContract
+        let c ← addC b tax
+        pure (i2, c)
+      | _ => pure (x.1, x.2)) x) ∧
+    ∀ v, l.foldlM (fun (x : Cur × Cur) (r : Resolution2) => match r.res with
+      | .renewal rn => do
+        let i1 ← if x.1 + rn.renterRollover < curLimit then pure (x.1 + rn.renterRollover) else reject "siacoin inputs overflow"
+        let i2 ← if i1 + rn.hostRollover < curLimit then pure (i1 + rn.hostRollover) else reject "siacoin inputs overflow"
+        let a ← addC x.2 rn.newContract.renter.value
+        let b ← addC a rn.newContract.host.value
+        let tax ← v2Tax rn.newContract
+        let c ← addC b tax
+        pure (i2, c)
+      | _ => pure (x.1, x.2)) x = .ok v → v.2 = x.2 + (l.map wResO).sum := by
+  induction l generalizing x with
+  | nil => exact ⟨by simp [pure, Except.pure], fun v hv => by simp at hv; subst hv; simp⟩
+  | cons r l ih =>
+    simp only [List.map_cons, List.sum_cons] at ho
+    rw [List.foldlM_cons]
+    cases hres : r.res with
+    | renewal rn =>
+      have hb0 := hb r List.mem_cons_self rn hres
+      simp only [wResO, hres] at ho
+      simp only []
+      by_cases h1 : x.1 + rn.renterRollover < curLimit
+      · rw [if_pos h1]
+        simp only [pure_bind]
+        by_cases h2 : x.1 + rn.renterRollover + rn.hostRollover < curLimit
+        · rw [if_pos h2]
+          try simp only [pure_bind]
+          rw [addC_eq_ok (by cur_omega : x.2 + rn.newContract.renter.value < curLimit)]
+          simp only [ok_bind]
+          rw [addC_eq_ok (by cur_omega : x.2 + rn.newContract.renter.value + rn.newContract.host.value < curLimit)]
+          simp only [ok_bind]
+          rw [v2Tax_eq_ok hb0]
+          simp only [ok_bind]
+          rw [addC_eq_ok (by cur_omega : x.2 + rn.newContract.renter.value + rn.newContract.host.value +
+            (rn.newContract.renter.value + rn.newContract.host.value) / 25 < curLimit)]
+          simp only [ok_bind, pure_bind]
+          obtain ⟨i1, i2⟩ := ih (x.1 + rn.renterRollover + rn.hostRollover, x.2 + rn.newContract.renter.value + rn.newContract.host.value +
+            (rn.newContract.renter.value + rn.newContract.host.value) / 25) (fun r hr => hb r (List.mem_cons_of_mem _ hr))
+            (by simp only []; cur_omega)
+          refine ⟨i1, fun v hv => ?_⟩
+          rw [i2 v hv]
+          simp only [List.map_cons, List.sum_cons, wResO, hres]
+          cur_omega
+        · rw [if_neg h2]
+          simp only [reject_bind]
+          exact ⟨by simp, fun v hv => absurd hv (reject_ne_ok _ _)⟩
+      · rw [if_neg h1]
+        simp only [reject_bind]
+        exact ⟨by simp, fun v hv => absurd hv (reject_ne_ok _ _)⟩
+    | proof a b c d =>
+      simp only [wResO, hres, Nat.zero_add] at ho
+      simp only [pure_bind]
+      obtain ⟨i1, i2⟩ := ih (x.1, x.2) (fun r hr => hb r (List.mem_cons_of_mem _ hr)) ho
+      exact ⟨i1, fun v hv => by rw [i2 v hv]; simp [wResO, hres]⟩
+    | expiration =>
+      simp only [wResO, hres, Nat.zero_add] at ho
+      simp only [pure_bind]
+      obtain ⟨i1, i2⟩ := ih (x.1, x.2) (fun r hr => hb r (List.mem_cons_of_mem _ hr)) ho
+      exact ⟨i1, fun v hv => by rw [i2 v hv]; simp [wResO, hres]⟩
+
+theorem scOuts_fold_spec (l : List (Id × ScOut)) (s : Cur) (h : s + (l.map (·.2.value)).sum < curLimit) :
+    NoPanic (l.foldlM (fun (s : Cur) (o : Id × ScOut) => if o.2.value = 0 then reject "siacoin output has zero value" else addC s o.2.value) s) ∧
+    ∀ v, l.foldlM (fun (s : Cur) (o : Id × ScOut) => if o.2.value = 0 then reject "siacoin output has zero value" else addC s o.2.value) s = .ok v →
+      v = s + (l.map (·.2.value)).sum := by
+  induction l generalizing s with
+  | nil => exact ⟨by simp [pure, Except.pure], fun v hv => by simp at hv; subst hv; simp⟩
+  | cons x l ih =>
+    simp only [List.map_cons, List.sum_cons] at h
+    rw [List.foldlM_cons]
+    by_cases hz : x.2.value = 0
+    · rw [if_pos hz]
+      simp only [reject_bind]
+      exact ⟨by simp, fun v hv => absurd hv (reject_ne_ok _ _)⟩
+    · rw [if_neg hz, addC_eq_ok (by cur_omega : s + x.2.value < curLimit)]
+      simp only [ok_bind]
+      obtain ⟨i1, i2⟩ := ih (s + x.2.value) (by cur_omega)
+      refine ⟨i1, fun v hv => ?_⟩
+      rw [i2 v hv]; simp only [List.map_cons, List.sum_cons]; cur_omega
+
+theorem inputs_fold_noPanic (l : List ScIn2) (s : Cur) :
+    NoPanic (l.foldlM (fun (s : Cur) (sci : ScIn2) => if s + sci.parent.value < curLimit then pure (s + sci.parent.value) else reject "siacoin inputs overflow") s) :=
+  foldlM_noPanic (fun s x => by split <;> simp) l s
+
+/-- `c10_validate_no_panic`, v2 siacoins: after the overflow pre-check `validateV2Siacoins` never
+panics, for any mid-state and transaction whatsoever (forged parents, legacy window included): the
+per-input loop only rejects, the input side of the balance is checked addition, and every unchecked
+addition on the output side is bounded by the pre-check. -/
+theorem c10_v2_siacoins_no_panic (ms : Mid) (t : Txn2) (hov : validateV2CurrencyOverflow t = .ok ()) :
+    NoPanic (validateV2Siacoins ms t) := by
+  obtain ⟨hout, hfcs, hren⟩ := v2_output_bound hov
+  rw [validateV2Siacoins_eq]
+  refine bind_noPanic (foldlM_noPanic (scIn2Step_noPanic ms) _ _) (fun _ _ => ?_)
+  unfold v2ScBalance
+  refine bind_noPanic (inputs_fold_noPanic _ _) (fun i0 _ => ?_)
+  obtain ⟨np0, v0⟩ := scOuts_fold_spec t.scOuts 0 (by cur_omega)
+  refine bind_noPanic np0 (fun o0 ho0 => ?_)
+  have e0 := v0 o0 ho0
+  have hf := fcs_fold_spec t.fcs o0 hfcs (by rw [e0]; cur_omega)
+  refine bind_noPanic (x := t.fcs.foldlM _ o0) (by rw [show t.fcs.foldlM _ o0 = _ from hf]; simp) (fun o1 ho1 => ?_)
+  have e1 : o1 = o0 + (t.fcs.map wFc).sum := by
+    have := hf.symm.trans ho1
+    exact (Except.ok.inj this).symm
+  obtain ⟨np2, v2⟩ := ress_fold_spec t.ress (i0, o1) hren (by simp only [e1, e0]; cur_omega)
+  refine bind_noPanic np2 (fun io hio => ?_)
+  have e2 := v2 io hio
+  obtain ⟨i2, o2⟩ := io
+  simp only [] at e2 ⊢
+  rw [addC_eq_ok (by rw [e2, e1, e0]; cur_omega)]
+  simp only [ok_bind]
+  split <;> simp
+
+/-- the whole v2 transaction validator up to and including the siafund validator never panics -/
+theorem c10_v2_prefix_no_panic (ms : Mid) (t : Txn2) :
+    NoPanic (validateV2CurrencyOverflow t) ∧
+    (validateV2CurrencyOverflow t = .ok () → NoPanic (validateV2Siacoins ms t) ∧ NoPanic (validateV2Siafunds ms t)) :=
+  ⟨validateV2CurrencyOverflow_noPanic t, fun h => ⟨c10_v2_siacoins_no_panic ms t h, validateV2Siafunds_noPanic ms t⟩⟩
+
+/-- PARTIAL (`c10_validate_no_panic`, one v2 transaction): `validateV2Transaction` never panics
+provided the parents of its revisions (as they currently stand) and resolutions have representable
+totals.  Missing for the unconditional statement: that bound for genuine parents, i.e. a solvency
+invariant of the ledger and of the block's diffs (value conservation, C01). -/
+theorem c10_v2_transaction_no_panic_partial (ms : Mid) (t : Txn2) (mw : Nat)
+    (hrev : ∀ r ∈ t.revs, (ms.curFc2 r.parent).renter.value + (ms.curFc2 r.parent).host.value < curLimit)
+    (hres : ∀ r ∈ t.ress, r.parent.fc.renter.value + r.parent.fc.host.value < curLimit) :
+    NoPanic (validateV2Transaction ms t mw) := by
+  rw [validateV2Transaction_eq]; unfold v2TxnChecks
+  split
+  · simp
+  refine bind_noPanic (validateV2CurrencyOverflow_noPanic t) (fun u hov => ?_)
+  cases u
+  split
+  · simp
+  split
+  · simp
+  refine bind_noPanic (c10_v2_siacoins_no_panic ms t hov) (fun _ _ => ?_)
+  refine bind_noPanic (validateV2Siafunds_noPanic ms t) (fun _ _ => ?_)
+  refine bind_noPanic (c10_v2_contracts_no_panic_partial ms t hov hrev hres) (fun _ _ => ?_)
+  split
+  · simp
+  · exact validateFoundationUpdate_noPanic ms t
+
+-- ================================================================= v1 siacoins: no panic after the overflow pre-check
+
+theorem addC_fold_ok {α} (w : α → Cur) (l : List α) (s : Cur) (h : s + (l.map w).sum < curLimit) :
+    l.foldlM (fun s x => addC s (w x)) s = .ok (s + (l.map w).sum) := by
+  induction l generalizing s with
+  | nil => simp [pure, Except.pure]
+  | cons x l ih =>
+    simp only [List.map_cons, List.sum_cons] at h
+    rw [List.foldlM_cons, addC_eq_ok (by cur_omega : s + w x < curLimit)]
+    simp only [ok_bind]
+    rw [ih _ (by cur_omega)]
+    simp only [List.map_cons, List.sum_cons]
+    congr 1; cur_omega
+
+theorem flatten_sum_ge {α} (xs : List α) (g : α → List Cur) (w : α → Nat) (hw : ∀ x ∈ xs, w x ≤ (g x).sum) :
+    (xs.map w).sum ≤ (xs.map g).flatten.sum := by
+  induction xs with
+  | nil => simp
+  | cons a xs ih =>
+    have := ih (fun x hx => hw x (List.mem_cons_of_mem _ hx))
+    have := hw a List.mem_cons_self
+    simp only [List.map_cons, List.sum_cons, List.flatten_cons, List.sum_append]
+    omega
+
+/-- `c10_validate_no_panic`, v1 siacoins: after the overflow pre-check `validateSiacoins` never
+panics — the input loop and the fee loop are checked additions, the output loops are bounded by the
+pre-check. -/
+theorem c10_v1_siacoins_no_panic (ms : Mid) (t : Txn1) (hov : validateCurrencyOverflow t = .ok ()) :
+    NoPanic (validateSiacoins ms t) := by
+  have htot : t.currencyValues.sum < curLimit := by
+    unfold validateCurrencyOverflow at hov
+    split at hov
+    · exact absurd hov (reject_ne_ok _ _)
+    · rename_i h
+      cases hs : sumChecked t.currencyValues with
+      | none => exact absurd (Or.inl (by rw [hs]; rfl)) h
+      | some v => exact sumChecked_some hs
+  have hb : (t.scOuts.map (·.2.value)).sum + (t.fcs.map (·.2.payout)).sum < curLimit := by
+    have := flatten_sum_ge t.fcs (fun x => [x.2.payout] ++ x.2.valid.map (·.value) ++ x.2.missed.map (·.value))
+      (fun x => x.2.payout) (fun x _ => by simp only [List.sum_append, List.sum_cons, List.sum_nil]; omega)
+    unfold Txn1.currencyValues at htot
+    simp only [List.sum_append] at htot
+    have e1 : (t.fcs.map fun x => match x with | (_, fc) => [fc.payout] ++ fc.valid.map (·.value) ++ fc.missed.map (·.value)) =
+        t.fcs.map (fun x => [x.2.payout] ++ x.2.valid.map (·.value) ++ x.2.missed.map (·.value)) := by
+      apply List.map_congr_left; intro x _; rfl
+    rw [e1] at htot
+    cur_omega
+  rw [validateSiacoins_eq]
+  refine bind_noPanic (foldlM_noPanic (fun s x => ?_) _ _) (fun i0 _ => ?_)
+  · unfold scIn1Step
+    repeat' split
+    all_goals simp
+  · unfold v1ScBalance
+    rw [addC_fold_ok (fun o : Id × ScOut => o.2.value) t.scOuts 0 (by cur_omega)]
+    simp only [ok_bind, Nat.zero_add]
+    rw [addC_fold_ok (fun f : Id × Fc1 => f.2.payout) t.fcs _ hb]
+    simp only [ok_bind]
+    refine bind_noPanic (foldlM_noPanic (fun s x => by split <;> simp) _ _) (fun _ _ => ?_)
+    split <;> simp
 
 end C10
